@@ -5,6 +5,7 @@ Three things are read from the source text:
     which is how the harness identifies a variant without relying on Display or Debug),
   * the `match self` arms of `impl Display for CompressionType`   (variant -> printed name),
   * the `match raw` arms of `impl FromStr for CompressionType`     (accepted text -> variant).
+Plus, from src/rpm/package.rs, the variant `get_payload_compressor` returns for an absent tag (C05).
 Variants are numbered by declaration order in the Lean tables (string literals do not reduce in the kernel).
 """
 import re
@@ -76,6 +77,23 @@ def generate():
     if len(variants) < 2:
         degraded.append(("CompressionNames", f"only {len(variants)} variants found"))
 
+    # `PackageMetadata::get_payload_compressor` (src/rpm/package.rs): the variant returned when the tag is absent,
+    # `if matches!(e, Error::TagNotFound(_)) { Ok(CompressionType::X) }`
+    default = len(variants)  # out of range when the pattern is missing: the dependent theorems then fail
+    pk = read("src/rpm/package.rs")
+    m = re.search(r"fn\s+get_payload_compressor\s*\(", pk)
+    fn = _block(pk, r"fn\s+get_payload_compressor\s*\([^)]*\)[^{]*\{") if m else None
+    if fn is None:
+        degraded.append(("CompressionNames", "fn get_payload_compressor not found"))
+    else:
+        dm = re.findall(r"TagNotFound\(\s*_\s*\)\s*\)\s*\{\s*Ok\(\s*CompressionType::(\w+)\s*\)", fn)
+        if len(dm) == 1 and dm[0] in idx:
+            default = idx[dm[0]]
+        else:
+            degraded.append(("CompressionNames", f"get_payload_compressor: default variant not understood: {dm!r}"))
+        if "CompressionType::from_str" not in fn or "get_entry_data_as_string(IndexTag::RPMTAG_PAYLOADCOMPRESSOR)" not in re.sub(r"\s+", "", fn):
+            degraded.append(("CompressionNames", "get_payload_compressor no longer reads RPMTAG_PAYLOADCOMPRESSOR through from_str"))
+
     body = "namespace RpmVerif.Gen\n"
     body += "/-- variants of `enum CompressionType` in declaration order (index = `variant as usize`); names for display only -/\n"
     body += "def compressionVariants : List String := [" + ", ".join(f'"{v}"' for v in variants) + "]\n"
@@ -86,5 +104,7 @@ def generate():
     body += "/-- (text accepted by `impl FromStr`, variant index) in source order; anything else is `Err(UnknownCompressorType)` -/\n"
     body += "def compressionFromStr : List (List Nat × Nat) := [\n"
     body += ",\n".join(f"  ({natlist(s)}, {v})  /- \"{s}\" {variants[v]} -/" for s, v in fromstr) + "]\n"
+    body += "/-- variant `get_payload_compressor` (src/rpm/package.rs) returns when RPMTAG_PAYLOADCOMPRESSOR is absent -/\n"
+    body += f"def payloadCompressorDefault : Nat := {default}" + (f"  /- {variants[default]} -/" if default < len(variants) else "") + "\n"
     body += "end RpmVerif.Gen\n"
     emit("CompressionNames", body)
